@@ -87,6 +87,7 @@ type Exec struct {
 	Concrete  map[string]*big.Int // concrete mode: nondet values by key
 	ConcTrace []string            // concrete mode: trace of assert/reach outcomes
 	AllowPanic bool
+	AllocLimit int // bytes; 0 = unchecked
 	inInit    bool
 	Debug     bool
 	curInstr  ssa.Instruction
@@ -325,6 +326,8 @@ func (ex *Exec) posOf(in ssa.Instruction) string {
 	}
 	return fmt.Sprintf("%s@%s:%d", fn.String(), file, p.Line)
 }
+
+var stdSizes = types.SizesFor("gc", "amd64")
 
 // BTrace records the branch trace of every path (debugging aid).
 var BTrace = os.Getenv("SYMGO_BTRACE") != ""
@@ -869,6 +872,23 @@ func (ex *Exec) makeSlice(s *State, fr *Frame, x *ssa.MakeSlice, pend *pending) 
 		// symbolic capacity: panic side (negative) then bound
 		if !ex.guard(s, ex.tt.Cmp(OpSLe, ex.tt.BV(0, 64), cp), "makeslice: len out of range", pend) {
 			return
+		}
+		if ex.AllocLimit > 0 {
+			// input-controlled allocation: may it exceed the harness' memory budget?
+			esz := uint64(stdSizes.Sizeof(elem))
+			if esz == 0 {
+				esz = 1
+			}
+			lim := ex.tt.BV(uint64(ex.AllocLimit)/esz, 64)
+			over := ex.tt.And(ex.tt.Cmp(OpULt, lim, cp), ex.tt.Cmp(OpULe, cp, ex.tt.BV((256<<20)/esz, 64)))
+			key := "alloc@" + ex.where()
+			if !s.reachSeen[key] {
+				s.reachSeen[key] = true
+				want := ex.wantTerms(s)
+				if r, model := ex.sol.CheckModel(s.pc, []*Term{over}, want); r == Sat {
+					ex.recordFinding(s, "alloc", "allocation exceeds limit", ex.where(), model)
+				}
+			}
 		}
 		within := ex.tt.Cmp(OpULe, cp, ex.tt.BV(uint64(ex.lim.MaxAlloc), 64))
 		if !ex.decideHint(s, within, pend, true) {
